@@ -1,44 +1,112 @@
 """C18 — healing and tool loops stop within their budgets against any generator.
 
-Engine B (mc/choice.py): every answer of the environment is a choice point.
-  heal   : ChaperoneLoop.heal      generator call   -> valid | junk | schema-invalid | echo of error context | raise
+Engine B (mc/choice.py): every answer of the environment is a choice point.  RAISE = one of four exception
+flavours (message, EMPTY message, StopIteration, KeyError('')), each its own answer.
+  heal   : ChaperoneLoop.heal      generator call   -> valid | junk | schema-invalid | echo of error context | "" |
+                                                       "null" | same output as before | RAISE
   swarm  : RegenerativeSwarm.supervise
-                                   worker factory   -> worker | raise
-                                   worker step      -> fresh junk | repeat previous | marker (5 markers, mixed case) | raise
-                                   summariser       -> hints | raise
+                                   worker factory   -> worker | RAISE
+                                   worker step      -> fresh junk | repeat previous | "" | marker (5, mixed case) | RAISE
+                                   summariser       -> hints | [] | None | answer of the stock default summariser | RAISE
   tools  : Nucleus.transcribe_with_tools
-                                   provider round   -> no tool calls | one call | two calls | unknown tool | raise
-                                   tool function    -> returns | raises
-                                   plain completion -> returns | raises
-Budgets 0..3 (quick) / 0..4 (thorough).  The whole answer tree of every configuration is executed on the
-real objects (the largest swarm configurations are deviation-bounded, see run()).  A loop that asks the
-environment for more than budget+2 answers is cut (TooManyChoices is a BaseException, so no `except
-Exception` of the library can swallow it) and reported: a runaway loop is a finite counter-example.
+                                   provider round   -> no tool calls ([]) | one call | two calls | unknown tool |
+                                                       no tool calls (None) | call with id ""/arguments {} |
+                                                       the very same calls as the round before | RAISE
+                                   tool function    -> returns | returns a falsy value | raises   (flavour per configuration)
+                                   plain completion -> returns | returns empty content | RAISE
+Limits 0..3 (quick) / 0..4 (thorough) for every budget, plus the configuration that omits every limit (documented
+defaults).  Every limit setting is crossed with the option variants of OPTION_VARIANTS (non-default constructor /
+per-call options one at a time and all together, chaperones whose error text is empty, workers that record no
+memory, a second call on the same objects, a sibling instance used before the judged one, re-registered tools,
+an empty prompt / task).
+The whole answer tree of every small configuration is executed on the real objects; larger ones are
+deviation-bounded (see configs()).  A loop that asks the environment for more than budget+2 answers is cut
+(TooManyChoices is a BaseException, so no `except Exception` of the library can swallow it) and reported: a
+runaway loop is a finite counter-example.
 
-The oracle is written from the property statement only; exceptions raised by the environment may propagate
-(the statement bounds calls, not exception handling) but the call counts must hold at that point as well.
+The oracle is written from the property statement only and counts what the environment itself observed
+(factory / step / generator / provider invocations); exceptions raised by the environment may propagate (the
+statement bounds calls, not exception handling) but the call counts must hold at that point as well.
 """
 from __future__ import annotations
 
-import itertools
+import contextlib
+import inspect
 import json
+from datetime import timedelta
 
 from mc import choice, common
 
 from pydantic import BaseModel
 
 from operon_ai.healing.chaperone_loop import ChaperoneLoop, HealingOutcome
-from operon_ai.healing.regenerative_swarm import RegenerativeSwarm, WorkerMemory
+from operon_ai.healing.regenerative_swarm import RegenerativeSwarm, WorkerMemory, create_default_summarizer
 from operon_ai.organelles.chaperone import Chaperone
 from operon_ai.organelles.mitochondria import Mitochondria
 from operon_ai.organelles.nucleus import Nucleus
-from operon_ai.providers import LLMResponse, ToolCall
+from operon_ai.providers import LLMResponse, ProviderConfig, ToolCall
 
 SLACK = 2  # answers beyond the budget before a loop is cut
 
 
 class EnvError(Exception):
     """Raised by the adversarial environment (generator / worker / provider)."""
+
+
+FLAVOURS = ("msg", "empty", "stopiter", "keyerr")
+RAISES = tuple(f"raise:{f}" for f in FLAVOURS)
+FALSY = {"msg": None, "empty": "", "stopiter": 0, "keyerr": []}  # falsy-but-legal return values, by flavour
+
+
+class Thrower:
+    """Raises the environment's exceptions and remembers them, so that an exception leaving the library can be
+    attributed (by identity, or through an explicit `raise ... from`) to the environment or to the library."""
+
+    def __init__(self):
+        self.raised = []
+
+    def throw(self, flavour, msg):
+        if flavour == "msg":
+            e = EnvError(msg)
+        elif flavour == "empty":
+            e = EnvError()
+        elif flavour == "stopiter":
+            e = StopIteration()
+        else:
+            e = KeyError("")
+        self.raised.append(e)
+        raise e
+
+    def owns(self, e):
+        for _ in range(8):
+            if e is None:
+                return False
+            if any(e is x for x in self.raised):
+                return True
+            e = e.__cause__
+        return False
+
+
+class _Null:
+    def write(self, s):
+        return len(s)
+
+    def flush(self):
+        pass
+
+
+class _Const:
+    """Fixed adversary driving the warm-up sibling instance: the same answer per label every time."""
+
+    def __init__(self, answers, cap=400):
+        self.answers = answers
+        self.left = cap
+
+    def pick(self, n, label=""):
+        self.left -= 1
+        if self.left < 0:
+            raise choice.TooManyChoices("warm-up:" + label)
+        return min(self.answers.get(label, 0), n - 1)
 
 
 class Quote(BaseModel):
@@ -68,20 +136,40 @@ class TracingChaperone(Chaperone):
         return res
 
 
-GEN_KINDS = ("valid", "junk", "schema-invalid", "echo", "raise")
+class BlankChaperone(Chaperone):
+    """Stock folding, but a misfold carries no error text ('' and None alternately)."""
+
+    def __init__(self, *a, **k):
+        super().__init__(*a, **k)
+        self.n = 0
+
+    def fold_enhanced(self, raw, schema, strategies=None):
+        res = super().fold_enhanced(raw, schema, strategies)
+        self.n += 1
+        if not res.valid:
+            res.error_trace = "" if self.n % 2 else None
+        return res
 
 
-def run_heal(cfg, ch):
-    """One execution of heal(); returns (outcome tuple, violations)."""
-    max_retries, chap_kind = cfg["max_retries"], cfg["chaperone"]
-    budget = max_retries + 1
-    calls = []  # (kind, error_context, output)
+CHAPERONES = {"tracing": TracingChaperone, "stock": Chaperone, "blank": BlankChaperone}
+GEN_KINDS = ("valid", "junk", "schema-invalid", "echo", "empty", "null", "same") + RAISES
+
+
+def _heal_session(cfg, ch, v):
+    """One ChaperoneLoop, cfg['calls'] consecutive heal() calls; returns the per-call observations."""
+    chap_kind = cfg["chaperone"]
+    silent = cfg.get("silent", True)
+    thrower = Thrower()
+    st = {"calls": [], "budget": 0, "last": None}
+    chap = CHAPERONES[chap_kind](silent=silent)
 
     def generator(prompt, error_context=None):
+        calls = st["calls"]
         n = len(calls)
-        if n >= budget + SLACK:
+        if n >= st["budget"] + SLACK:
             raise choice.TooManyChoices("generator")
         kind = GEN_KINDS[ch.pick(len(GEN_KINDS), "gen")]
+        out = None
         if kind == "valid":
             out = json.dumps({"item": f"widget{n}", "price": n + 0.5})
         elif kind == "junk":
@@ -90,101 +178,128 @@ def run_heal(cfg, ch):
             out = json.dumps({"item": f"widget{n}", "cost": n})
         elif kind == "echo":
             out = error_context if error_context is not None else f"nothing to echo {n}"
-        else:
-            out = None
-        calls.append((kind, error_context, out))
+        elif kind == "empty":
+            out = ""
+        elif kind == "null":
+            out = "null"
+        elif kind == "same":
+            out = st["last"] if st["last"] is not None else "sorry, no idea (again)"
+        calls.append((kind, error_context, out, getattr(chap, "n", None)))
         if out is None:
-            raise EnvError(f"generator failure {n}")
+            thrower.throw(kind[6:], f"generator failure {n}")
+        st["last"] = out
         return out
 
-    chap = TracingChaperone(silent=True) if chap_kind == "tracing" else Chaperone(silent=True)
-    loop = ChaperoneLoop(generator=generator, chaperone=chap, schema=Quote, max_retries=max_retries, silent=True)
-    v = []
-    result = None
-    exc = None
-    cut = False
-    try:
-        result = loop.heal("quote please")
-    except choice.TooManyChoices:
-        cut = True
-    except EnvError as e:
-        exc = type(e).__name__
-    except Exception as e:  # noqa: BLE001 - an exception that is not the environment's
-        exc = type(e).__name__
-        v.append((f"heal-raises:{type(e).__name__}", f"heal() raised {type(e).__name__}: {e} after {len(calls)} generator calls"))
+    kw = {}
+    if cfg["max_retries"] is not None:
+        kw["max_retries"] = cfg["max_retries"]
+    if cfg.get("decay") is not None:
+        kw["confidence_decay"] = cfg["decay"]
+    loop = ChaperoneLoop(generator=generator, chaperone=chap, schema=Quote, silent=silent, **kw)
+    max_retries = loop.max_retries if cfg["max_retries"] is None else cfg["max_retries"]  # omitted -> documented default
+    budget = st["budget"] = max_retries + 1
+    obs_all = []
+    for _call_no in range(cfg.get("calls", 1)):
+        calls = st["calls"] = []
+        result = None
+        exc = None
+        cut = False
+        try:
+            result = loop.heal("" if cfg.get("blank_input") else "quote please")
+        except choice.TooManyChoices:
+            cut = True
+        except Exception as e:  # noqa: BLE001
+            exc = type(e).__name__
+            if not thrower.owns(e):  # an exception that is not the environment's
+                v.append((f"heal-raises:{type(e).__name__}",
+                          f"heal() raised {type(e).__name__}: {e} after {len(calls)} generator calls"))
 
-    if cut or len(calls) > budget:
-        v.append(("heal-generator-calls-exceed-budget",
-                  f"max_retries={max_retries}: generator called {len(calls)}{'+' if cut else ''} times, budget {budget}"))
+        if cut or len(calls) > budget:
+            v.append(("heal-generator-calls-exceed-budget",
+                      f"max_retries={max_retries}: generator called {len(calls)}{'+' if cut else ''} times, budget {budget}"))
 
-    # independent judgement of every generator output (fresh stock chaperone)
-    judge = Chaperone(silent=True)
-    verdicts = []
-    for kind, _ctx, out in calls:
-        verdicts.append(None if out is None else judge.fold_enhanced(out, Quote))
+        # independent judgement of every generator output (fresh stock chaperone)
+        judge = Chaperone(silent=True)
+        verdicts = []
+        for _kind, _ctx, out, _n in calls:
+            verdicts.append(None if out is None else judge.fold_enhanced(out, Quote))
 
-    # each retry is fed the previous attempt's error
-    reported = result.attempts if result is not None else None
-    for k in range(1, len(calls)):
-        ctx_k = calls[k][1]
-        prev_out = calls[k - 1][2]
-        if ctx_k is None:
-            v.append(("heal-retry-without-error-context", f"retry {k} received error_context=None"))
-            continue
-        if chap_kind == "tracing":
-            want = f"[misfold#{k}:{len(prev_out)}]"  # the k-th fold of this loop is attempt k-1
-            if want not in ctx_k:
-                v.append(("heal-retry-error-context-stale",
-                          f"retry {k} did not receive the error of attempt {k - 1} ({want}); got {ctx_k[:160]!r}"))
-        if reported is not None and k - 1 < len(reported) and reported[k - 1].error_trace:
-            if reported[k - 1].error_trace not in ctx_k:
-                v.append(("heal-retry-error-context-stale",
-                          f"retry {k} context lacks attempt {k - 1}'s recorded error {reported[k - 1].error_trace[:80]!r}"))
-        if prev_out[:200] not in ctx_k:
-            v.append(("obs:heal-retry-context-lacks-output-prefix", f"retry {k}"))
-    if calls and calls[0][1] is not None:
-        v.append(("obs:heal-first-call-has-error-context", repr(calls[0][1])[:80]))
+        # each retry is fed the previous attempt's error
+        reported = result.attempts if result is not None else None
+        for k in range(1, len(calls)):
+            ctx_k = calls[k][1]
+            prev_out = calls[k - 1][2]
+            if ctx_k is None:
+                if chap_kind == "blank":  # the previous attempt's error was empty: nothing the statement requires to be fed
+                    v.append(("obs:heal-retry-without-error-context-after-empty-error", f"retry {k}"))
+                else:
+                    v.append(("heal-retry-without-error-context", f"retry {k} received error_context=None"))
+                continue
+            if chap_kind == "tracing":
+                want = f"[misfold#{calls[k][3]}:{len(prev_out)}]"  # the last fold before this call judged attempt k-1
+                if want not in ctx_k:
+                    v.append(("heal-retry-error-context-stale",
+                              f"retry {k} did not receive the error of attempt {k - 1} ({want}); got {ctx_k[:160]!r}"))
+            if reported is not None and k - 1 < len(reported) and reported[k - 1].error_trace:
+                if reported[k - 1].error_trace not in ctx_k:
+                    v.append(("heal-retry-error-context-stale",
+                              f"retry {k} context lacks attempt {k - 1}'s recorded error {reported[k - 1].error_trace[:80]!r}"))
+            if prev_out[:200] not in ctx_k:
+                v.append(("obs:heal-retry-context-lacks-output-prefix", f"retry {k}"))
+        if calls and calls[0][1] is not None:
+            v.append(("obs:heal-first-call-has-error-context", repr(calls[0][1])[:80]))
 
-    outcome = None
-    if result is not None:
-        oc = result.outcome
-        outcome = oc.value
-        if oc in (HealingOutcome.VALID_FIRST_TRY, HealingOutcome.HEALED):
-            s = result.structure
-            ok = isinstance(s, Quote)
-            if ok:
-                try:
-                    ok = Quote.model_validate(s.model_dump()) == s
-                except Exception:  # noqa: BLE001
-                    ok = False
-            if not ok:
-                v.append((f"heal-{oc.value}-without-schema-valid-structure",
-                          f"outcome {oc.value} after {len(calls)} calls but structure={s!r}"))
+        outcome = None
+        if result is not None:
+            oc = result.outcome
+            outcome = oc.value
+            if oc in (HealingOutcome.VALID_FIRST_TRY, HealingOutcome.HEALED):
+                s = result.structure
+                ok = isinstance(s, Quote)
+                if ok:
+                    try:
+                        ok = Quote.model_validate(s.model_dump()) == s
+                    except Exception:  # noqa: BLE001
+                        ok = False
+                if not ok:
+                    v.append((f"heal-{oc.value}-without-schema-valid-structure",
+                              f"outcome {oc.value} after {len(calls)} calls but structure={s!r}"))
+                else:
+                    last = verdicts[-1] if verdicts else None
+                    if last is None or not last.valid or last.structure != s:
+                        v.append((f"obs:heal-{oc.value}-structure-not-from-last-output",
+                                  f"structure {s!r} but the last generator output {calls[-1][2]!r:.120} folds to "
+                                  f"{(last.structure if last is not None and last.valid else None)!r}"))
+                if (oc == HealingOutcome.VALID_FIRST_TRY) != (len(calls) == 1):
+                    v.append(("heal-first-try-vs-healed-mislabelled", f"outcome {oc.value} after {len(calls)} generator calls"))
+                if result.ubiquitin_tagged:
+                    v.append(("obs:heal-valid-result-tagged-for-degradation", f"outcome {oc.value} with ubiquitin_tagged=True"))
+                if not (0.0 <= result.final_confidence <= 1.0):
+                    v.append(("obs:heal-confidence-out-of-range", f"final_confidence={result.final_confidence}"))
             else:
-                last = verdicts[-1] if verdicts else None
-                if last is None or not last.valid or last.structure != s:
-                    v.append((f"obs:heal-{oc.value}-structure-not-from-last-output",
-                              f"structure {s!r} but the last generator output {calls[-1][2]!r:.120} folds to "
-                              f"{(last.structure if last is not None and last.valid else None)!r}"))
-            if (oc == HealingOutcome.VALID_FIRST_TRY) != (len(calls) == 1):
-                v.append(("heal-first-try-vs-healed-mislabelled", f"outcome {oc.value} after {len(calls)} generator calls"))
-            if result.ubiquitin_tagged:
-                v.append(("obs:heal-valid-result-tagged-for-degradation", f"outcome {oc.value} with ubiquitin_tagged=True"))
-            if not (0.0 <= result.final_confidence <= 1.0):
-                v.append(("obs:heal-confidence-out-of-range", f"final_confidence={result.final_confidence}"))
-        else:
-            if oc != HealingOutcome.DEGRADED:
-                v.append(("heal-unknown-outcome", repr(oc)))
-            if not result.ubiquitin_tagged:
-                v.append(("heal-degraded-not-tagged", "outcome DEGRADED but ubiquitin_tagged=False"))
-            if result.final_confidence != 0:
-                v.append(("heal-degraded-confidence-nonzero", f"final_confidence={result.final_confidence}"))
-            if result.structure is not None or result.valid:
-                v.append(("heal-degraded-carries-structure", f"structure={result.structure!r} valid={result.valid}"))
-            if result.folded is not None:
-                v.append(("obs:heal-degraded-folded-not-none", ""))
-    obs = ("heal", outcome, exc, cut, len(calls), tuple(c[0] for c in calls))
-    return obs, v
+                if oc != HealingOutcome.DEGRADED:
+                    v.append(("heal-unknown-outcome", repr(oc)))
+                if not result.ubiquitin_tagged:
+                    v.append(("heal-degraded-not-tagged", "outcome DEGRADED but ubiquitin_tagged=False"))
+                if result.final_confidence != 0:
+                    v.append(("heal-degraded-confidence-nonzero", f"final_confidence={result.final_confidence}"))
+                if result.structure is not None or result.valid:
+                    v.append(("heal-degraded-carries-structure", f"structure={result.structure!r} valid={result.valid}"))
+                if result.folded is not None:
+                    v.append(("obs:heal-degraded-folded-not-none", ""))
+        obs_all.append((outcome, exc, cut, len(calls), tuple(c[0] for c in calls)))
+        if cut:
+            break
+    return tuple(obs_all)
+
+
+def run_heal(cfg, ch):
+    v = []
+    if cfg.get("warm"):  # a sibling loop that never heals is driven to exhaustion first
+        _heal_session({"max_retries": 1, "chaperone": cfg["chaperone"], "silent": cfg.get("silent", True)},
+                      _Const({"gen": 1}), v)
+    obs = _heal_session(cfg, ch, v)
+    return ("heal",) + obs, v
 
 
 # ----------------------------------------------------------------------------------------------
@@ -193,7 +308,10 @@ def run_heal(cfg, ch):
 
 MARKERS = ("SUCCESS", "SOLVED", "COMPLETE", "DONE", "FINISHED")  # from the library's documented marker list
 MARKER_OUTPUTS = ("Success: found it", "puzzle sOlVeD", "task complete.", "all done", "Finished the job")
-STEP_KINDS = ("junk", "repeat") + tuple(f"marker{i}" for i in range(5)) + ("raise",)
+STEP_KINDS = ("junk", "repeat", "empty") + tuple(f"marker{i}" for i in range(5)) + RAISES
+FACTORY_KINDS = ("worker",) + RAISES
+SUMMARY_KINDS = ("hints", "empty-list", "none", "stock") + RAISES
+STOCK_SUMMARIZER = create_default_summarizer()
 
 
 def has_marker(s):
@@ -215,61 +333,82 @@ class _Worker:
         k = STEP_KINDS[env["ch"].pick(len(STEP_KINDS), "step")]
         self.steps += 1
         env["nsteps"] += 1
-        if k == "raise":
+        if k.startswith("raise:"):
             env["last_output"] = None
-            raise EnvError(f"worker {self.id} failed at step {self.steps}")
+            env["thrower"].throw(k[6:], f"worker {self.id} failed at step {self.steps}")
         if k == "junk":
             out = f"thinking about angle #{env['nsteps']} ..."
         elif k == "repeat":
             out = self.last if self.last is not None else "hmm, still the same thought"
+        elif k == "empty":
+            out = ""
         else:
             out = MARKER_OUTPUTS[int(k[-1])]
         self.last = out
         env["last_output"] = out
-        self.memory.add_attempt(task, out)
+        if env["record"]:
+            self.memory.add_attempt(task, out)
         return out
 
 
-def run_swarm(cfg, ch):
-    R, S, thr, ncalls = cfg["max_regenerations"], cfg["max_steps"], cfg["threshold"], cfg.get("calls", 1)
-    env = {"ch": ch, "S": S, "nsteps": 0, "workers": [], "last_output": None, "summaries": 0}
+def _swarm_session(cfg, ch, v):
+    R, S, ncalls = cfg["max_regenerations"], cfg["max_steps"], cfg.get("calls", 1)
+    thrower = Thrower()
+    env = {"ch": ch, "S": S, "R": R, "nsteps": 0, "workers": [], "last_output": None, "summaries": 0,
+           "thrower": thrower, "record": cfg.get("record", True)}
 
     def factory(name, hints):
-        if len(env["workers"]) >= R + 1 + SLACK:
+        if len(env["workers"]) >= env["R"] + 1 + SLACK:
             raise choice.TooManyChoices("factory")
-        a = ch.pick(2, "factory")
-        if a == 1:
+        k = FACTORY_KINDS[ch.pick(len(FACTORY_KINDS), "factory")]
+        if k != "worker":
             env["workers"].append(None)
-            raise EnvError(f"cannot spawn {name}")
-        w = _Worker(name, env)
+            thrower.throw(k[6:], f"cannot spawn {name}")
+        w = _Worker("w" if cfg.get("same_ids") else name, env)
         env["workers"].append(w)
         return w
 
     def summariser(memory):
         env["summaries"] += 1
-        if ch.pick(2, "summary") == 1:
-            raise EnvError("summariser failed")
+        k = SUMMARY_KINDS[ch.pick(len(SUMMARY_KINDS), "summary")]
+        if k.startswith("raise:"):
+            thrower.throw(k[6:], "summariser failed")
+        if k == "empty-list":
+            return []
+        if k == "none":
+            return None
+        if k == "stock":
+            return STOCK_SUMMARIZER(memory)
         return [f"previous worker made {len(memory.output_history)} attempts"]
 
-    swarm = RegenerativeSwarm(worker_factory=factory, summarizer=summariser, entropy_threshold=thr,
-                              max_steps_per_worker=S, max_regenerations=R, silent=True)
-    v = []
+    kw = {}
+    if R is not None:
+        kw["max_regenerations"] = R
+    if S is not None:
+        kw["max_steps_per_worker"] = S
+    if cfg.get("timeout0"):
+        kw["step_timeout"] = timedelta(0)
+    swarm = RegenerativeSwarm(worker_factory=factory, summarizer=summariser, entropy_threshold=cfg["threshold"],
+                              silent=cfg.get("silent", True), **kw)
+    if R is None:  # omitted -> documented defaults
+        R = env["R"] = swarm.max_regenerations
+    if S is None:
+        S = env["S"] = swarm.max_steps_per_worker
     obs_all = []
-    for call_no in range(ncalls):
+    for _call_no in range(ncalls):
         env["workers"] = []
         env["last_output"] = None
         result = None
         exc = None
         cut = False
         try:
-            result = swarm.supervise("solve the puzzle")
+            result = swarm.supervise("" if cfg.get("blank_input") else "solve the puzzle")
         except choice.TooManyChoices:
             cut = True
-        except EnvError as e:
-            exc = type(e).__name__
         except Exception as e:  # noqa: BLE001
             exc = type(e).__name__
-            v.append((f"swarm-raises:{type(e).__name__}", f"supervise() raised {type(e).__name__}: {e}"))
+            if not thrower.owns(e):
+                v.append((f"swarm-raises:{type(e).__name__}", f"supervise() raised {type(e).__name__}: {e}"))
         spawned = len(env["workers"])
         steps = [w.steps for w in env["workers"] if w is not None]
         if spawned > R + 1:
@@ -296,14 +435,26 @@ def run_swarm(cfg, ch):
         obs_all.append((success, exc, cut, spawned, tuple(steps)))
         if cut:
             break
-    return ("swarm",) + tuple(obs_all), v
+    return tuple(obs_all)
+
+
+def run_swarm(cfg, ch):
+    v = []
+    if cfg.get("warm"):  # a sibling swarm that never succeeds is driven to exhaustion first
+        _swarm_session({"max_regenerations": 1, "max_steps": 1, "threshold": cfg["threshold"],
+                        "record": cfg.get("record", True), "silent": cfg.get("silent", True)}, _Const({"summary": 1}), v)
+    obs = _swarm_session(cfg, ch, v)
+    return ("swarm",) + obs, v
 
 
 # ----------------------------------------------------------------------------------------------
 # tool loop
 # ----------------------------------------------------------------------------------------------
 
-ROUND_KINDS = ("final", "one-call", "two-calls", "unknown-tool", "raise")
+ROUND_KINDS = ("final", "one-call", "two-calls", "unknown-tool", "final-none", "empty-args", "same-calls") + RAISES
+TOOL_KINDS = ("returns", "falsy", "raises")
+COMPLETE_KINDS = ("returns", "blank") + RAISES
+DEFAULT_MAX_ITERATIONS = inspect.signature(Nucleus.transcribe_with_tools).parameters["max_iterations"].default
 
 
 class _Provider:
@@ -320,9 +471,11 @@ class _Provider:
         if env["plain"] >= 1 + SLACK:
             raise choice.TooManyChoices("complete")
         env["plain"] += 1
-        if env["ch"].pick(2, "complete") == 1:
-            raise EnvError("completion failed")
-        return LLMResponse(content=f"final answer {env['plain']}", model="adv", tokens_used=1, latency_ms=0.0)
+        k = COMPLETE_KINDS[env["ch"].pick(len(COMPLETE_KINDS), "complete")]
+        if k.startswith("raise:"):
+            env["thrower"].throw(k[6:], "completion failed")
+        content = "" if k == "blank" else f"final answer {env['plain']}"
+        return LLMResponse(content=content, model="adv", tokens_used=1, latency_ms=0.0)
 
 
 class _ToolProvider(_Provider):
@@ -332,72 +485,117 @@ class _ToolProvider(_Provider):
             raise choice.TooManyChoices("complete_with_tools")
         env["rounds"] += 1
         n = env["rounds"]
-        k = ROUND_KINDS[env["ch"].pick(len(ROUND_KINDS), "round")]
+        kinds = env["round_kinds"]
+        k = kinds[env["ch"].pick(len(kinds), "round")]
         env["kinds"].append(k)
-        if k == "raise":
-            raise EnvError("provider failed")
-        resp = LLMResponse(content=f"round {n}", model="adv", tokens_used=1, latency_ms=0.0)
+        env["req"].append(0)
+        if k.startswith("raise:"):
+            env["thrower"].throw(k[6:], "provider failed")
+        resp = LLMResponse(content=f"round {n}" if env["flavour"] == "msg" else "", model="adv", tokens_used=1, latency_ms=0.0)
         if k == "final":
             return resp, []
+        if k == "final-none":
+            return resp, None
         if k == "one-call":
-            return resp, [ToolCall(id=f"c{n}a", name="probe", arguments={"x": n})]
-        if k == "two-calls":
-            return resp, [ToolCall(id=f"c{n}a", name="probe", arguments={"x": n}),
-                          ToolCall(id=f"c{n}b", name="probe", arguments={"x": -n})]
-        return resp, [ToolCall(id=f"c{n}u", name="no_such_tool", arguments={})]
+            calls = [ToolCall(id=f"c{n}a", name="probe", arguments={"x": n})]
+        elif k == "two-calls":
+            calls = [ToolCall(id=f"c{n}a", name="probe", arguments={"x": n}),
+                     ToolCall(id=f"c{n}b", name="probe", arguments={"x": -n})]
+        elif k == "empty-args":
+            calls = [ToolCall(id="", name="probe", arguments={})]
+        elif k == "same-calls":
+            calls = env["last_calls"] if env["last_calls"] is not None else [ToolCall(id="same", name="probe", arguments={"x": 1})]
+        else:
+            calls = [ToolCall(id=f"c{n}u", name="no_such_tool", arguments={})]
+        env["last_calls"] = calls
+        env["req"][-1] = sum(1 for c in calls if c.name == "probe")
+        return resp, calls
 
 
-def run_tools(cfg, ch):
-    M = cfg["max_iterations"]
-    env = {"ch": ch, "M": M, "rounds": 0, "plain": 0, "kinds": [], "tool_runs": 0}
+def _tools_session(cfg, ch, v):
+    M, flavour, rot = cfg["max_iterations"], cfg.get("flavour", "msg"), cfg.get("rot", 0)
+    thrower = Thrower()
+    env = {"ch": ch, "M": DEFAULT_MAX_ITERATIONS if M is None else M, "flavour": flavour, "thrower": thrower,
+           "round_kinds": ROUND_KINDS[rot:] + ROUND_KINDS[:rot], "last_calls": None}
 
     def probe(x=0):
         env["tool_runs"] += 1
-        if ch.pick(2, "tool") == 1:
-            raise EnvError("tool failed")
+        a = TOOL_KINDS[ch.pick(len(TOOL_KINDS), "tool")]
+        if a == "raises":
+            thrower.throw(flavour, "tool failed")
+        if a == "falsy":
+            return FALSY[flavour]
         return x * 2
 
-    mito = Mitochondria(silent=True)
+    if cfg.get("mito_odd"):
+        mito = Mitochondria(timeout_seconds=0, max_ros=0, silent=False)
+    else:
+        mito = Mitochondria(silent=True)
     if cfg["tools"]:
+        if cfg.get("rereg"):  # registration under an existing name replaces the tool; an unrelated tool is present
+            mito.register_function("probe", lambda x=0: "stale", description="superseded")
+            mito.register_function("aux", lambda: "aux", description="never requested")
         mito.register_function("probe", probe, description="probe")
     provider = _ToolProvider(env) if cfg["provider_tools"] else _Provider(env)
-    nucleus = Nucleus(provider=provider)
+    pconf = None
+    if cfg.get("nucleus_odd"):
+        nucleus = Nucleus(provider=provider, base_energy_cost=0, max_retries=0)
+        pconf = ProviderConfig(temperature=0.0, max_tokens=0, timeout_seconds=0.0, system_prompt="")
+    else:
+        nucleus = Nucleus(provider=provider)
+    budget = env["M"]
+    obs_all = []
+    for call_no in range(cfg.get("calls", 1)):
+        env.update(rounds=0, plain=0, kinds=[], req=[], tool_runs=0)
+        if call_no and cfg.get("clear_log"):
+            nucleus.clear_log()
+        kw = {"auto_execute": cfg["auto_execute"]}
+        if M is not None:
+            kw["max_iterations"] = M
+        if pconf is not None:
+            kw["config"] = pconf
+        resp = None
+        exc = None
+        cut = False
+        n0 = len(v)
+        try:
+            resp = nucleus.transcribe_with_tools("" if cfg.get("blank_input") else "question", mito, **kw)
+        except choice.TooManyChoices:
+            cut = True
+        except Exception as e:  # noqa: BLE001
+            exc = type(e).__name__
+            if not thrower.owns(e):
+                v.append((f"tools-raises:{type(e).__name__}", f"transcribe_with_tools raised {type(e).__name__}: {e}"))
+        plus = "+" if cut else ""
+        if env["rounds"] > budget:
+            v.append(("tools-rounds-exceed-budget",
+                      f"max_iterations={budget}: complete_with_tools called {env['rounds']}{plus} times ({env['kinds']})"))
+        if env["plain"] > 1:
+            v.append(("tools-more-than-one-final-completion", f"complete() called {env['plain']}{plus} times"))
+        if env["rounds"] + env["plain"] > budget + 1:
+            v.append(("tools-provider-calls-exceed-budget",
+                      f"max_iterations={budget}: {env['rounds']}+{env['plain']} provider calls{plus}, budget {budget + 1}"))
+        requested = sum(env["req"][:budget])
+        if env["tool_runs"] > requested:
+            v.append(("tools-executions-exceed-requested-rounds",
+                      f"{env['tool_runs']} tool executions, only {requested} requested within {budget} rounds"))
+        if cut and len(v) == n0:
+            v.append(("tools-runaway", "environment asked for more answers than the horizon allows"))
+        if resp is not None and not isinstance(resp, LLMResponse):
+            v.append(("tools-returns-non-response", repr(resp)[:80]))
+        obs_all.append((resp is not None, exc, cut, env["rounds"], env["plain"], env["tool_runs"], tuple(env["kinds"])))
+        if cut:
+            break
+    return tuple(obs_all)
+
+
+def run_tools(cfg, ch):
     v = []
-    resp = None
-    exc = None
-    cut = False
-    try:
-        if M is None:
-            resp = nucleus.transcribe_with_tools("question", mito, auto_execute=cfg["auto_execute"])
-        else:
-            resp = nucleus.transcribe_with_tools("question", mito, max_iterations=M, auto_execute=cfg["auto_execute"])
-    except choice.TooManyChoices:
-        cut = True
-    except EnvError as e:
-        exc = type(e).__name__
-    except Exception as e:  # noqa: BLE001
-        exc = type(e).__name__
-        v.append((f"tools-raises:{type(e).__name__}", f"transcribe_with_tools raised {type(e).__name__}: {e}"))
-    budget = 10 if M is None else M
-    plus = "+" if cut else ""
-    if env["rounds"] > budget:
-        v.append(("tools-rounds-exceed-budget",
-                  f"max_iterations={budget}: complete_with_tools called {env['rounds']}{plus} times ({env['kinds']})"))
-    if env["plain"] > 1:
-        v.append(("tools-more-than-one-final-completion", f"complete() called {env['plain']}{plus} times"))
-    if env["rounds"] + env["plain"] > budget + 1:
-        v.append(("tools-provider-calls-exceed-budget",
-                  f"max_iterations={budget}: {env['rounds']}+{env['plain']} provider calls{plus}, budget {budget + 1}"))
-    requested = sum({"one-call": 1, "two-calls": 2}.get(k, 0) for k in env["kinds"][:budget])
-    if env["tool_runs"] > requested:
-        v.append(("tools-executions-exceed-requested-rounds",
-                  f"{env['tool_runs']} tool executions, only {requested} requested within {budget} rounds"))
-    if cut and not v:
-        v.append(("tools-runaway", "environment asked for more answers than the horizon allows"))
-    if resp is not None and not isinstance(resp, LLMResponse):
-        v.append(("tools-returns-non-response", repr(resp)[:80]))
-    obs = ("tools", resp is not None, exc, cut, env["rounds"], env["plain"], env["tool_runs"], tuple(env["kinds"]))
-    return obs, v
+    if cfg.get("warm"):  # a sibling nucleus/mitochondria pair whose provider requests tools forever is used first
+        _tools_session({"max_iterations": 1, "auto_execute": True, "tools": True, "provider_tools": True,
+                        "flavour": cfg.get("flavour", "msg")}, _Const({"round": 1}), v)
+    obs = _tools_session(cfg, ch, v)
+    return ("tools",) + obs, v
 
 
 # ----------------------------------------------------------------------------------------------
@@ -406,49 +604,112 @@ def run_tools(cfg, ch):
 
 RUNNERS = {"heal": run_heal, "swarm": run_swarm, "tools": run_tools}
 
+# Option variants crossed with EVERY limit setting of a harness (the first one is the all-defaults core scenario,
+# the last one sets every unusual thing at once).
+HEAL_VARIANTS = (
+    {},
+    {"silent": False},
+    {"decay": 0.0},
+    {"decay": 2.0},
+    {"warm": True},
+    {"calls": 2},
+    {"blank_input": True},
+    {"silent": False, "decay": 0.0, "warm": True, "calls": 2, "blank_input": True},
+)
+SWARM_VARIANTS = (
+    {"threshold": 0.9},
+    {"threshold": 0.5},
+    {"threshold": 0.0},
+    {"threshold": 1.0},
+    {"threshold": 0.5, "record": False},
+    {"threshold": 0.5, "silent": False},
+    {"threshold": 0.5, "timeout0": True},
+    {"threshold": 0.5, "same_ids": True},
+    {"threshold": 0.5, "warm": True},
+    {"threshold": 0.5, "calls": 2},
+    {"threshold": 0.5, "blank_input": True},
+    {"threshold": 0.0, "record": False, "silent": False, "timeout0": True, "same_ids": True, "warm": True, "calls": 2,
+     "blank_input": True},
+)
+TOOLS_VARIANTS = (
+    {},
+    {"auto_execute": False},
+    {"tools": False},
+    {"provider_tools": False},
+    {"flavour": "empty"},
+    {"flavour": "stopiter"},
+    {"flavour": "keyerr"},
+    {"mito_odd": True},
+    {"nucleus_odd": True},
+    {"rereg": True},
+    {"warm": True},
+    {"calls": 2},
+    {"calls": 2, "clear_log": True},
+    {"blank_input": True},
+    {"flavour": "empty", "mito_odd": True, "nucleus_odd": True, "rereg": True, "warm": True, "calls": 2, "blank_input": True},
+)
+EXHAUSTIVE_UP_TO = {"quick": 4000, "thorough": 60000}  # estimated inner paths of an answer tree explored completely
+MAX_DEV = {"quick": (3, 2), "thorough": (4, 2)}  # deviation bound for the larger trees (one call, two calls on one object)
+HUGE = 10 ** 9  # trees estimated larger than this get one deviation less
+
 
 def horizon_of(cfg):
     h = cfg["harness"]
+    calls = cfg.get("calls", 1)
     if h == "heal":
-        return cfg["max_retries"] + 1 + SLACK + 1
+        m = 3 if cfg["max_retries"] is None else cfg["max_retries"]
+        return calls * (m + 1 + SLACK) + 2
     if h == "swarm":
-        R, S = cfg["max_regenerations"], cfg["max_steps"]
-        return cfg.get("calls", 1) * ((R + 1 + SLACK) * (S + SLACK + 2)) + 2
-    M = 10 if cfg["max_iterations"] is None else cfg["max_iterations"]
-    return (M + SLACK) * 4 + SLACK + 4
+        R = 3 if cfg["max_regenerations"] is None else cfg["max_regenerations"]
+        S = 10 if cfg["max_steps"] is None else cfg["max_steps"]
+        return calls * ((R + 1 + SLACK) * (S + SLACK + 2)) + 2
+    M = DEFAULT_MAX_ITERATIONS if cfg["max_iterations"] is None else cfg["max_iterations"]
+    return calls * ((M + SLACK) * 3 + SLACK + 2) + 4
+
+
+def _bound(tier, est, calls=1):
+    """None (whole tree) for small trees, else the deviation bound."""
+    if est ** calls <= EXHAUSTIVE_UP_TO[tier]:
+        return None
+    return MAX_DEV[tier][calls - 1] - (1 if est > HUGE and calls == 1 else 0)
 
 
 def configs(tier):
     top = 3 if tier == "quick" else 4
     out = []
-    for m in range(top + 1):
-        for chap in ("tracing", "stock"):
-            out.append({"harness": "heal", "max_retries": m, "chaperone": chap, "max_dev": None})
-    for R in range(top + 1):
-        for S in range(top + 1):
-            for thr in (0.9, 0.5):
-                # the answer tree has ~ (2^S)^(R+1) inner paths; the largest ones are deviation-bounded
-                size = (2 ** S) ** (R + 1)
-                if size <= 70000:
-                    dev = None
-                else:
-                    dev = 5
-                out.append({"harness": "swarm", "max_regenerations": R, "max_steps": S, "threshold": thr, "max_dev": dev,
-                            "split": size >= 500})
-    for R in range(top):  # two consecutive supervise() calls on one swarm (the spawn counter persists)
-        for S in range(3):
-            if tier == "quick" and (2 ** S) ** (2 * (R + 1)) > 300:
-                continue  # quick keeps only the two-call configurations it can explore completely
-            out.append({"harness": "swarm", "max_regenerations": R, "max_steps": S, "threshold": 0.5, "calls": 2,
-                        "max_dev": None if (2 ** S) ** (2 * (R + 1)) <= 300 else 3, "split": True})
-    for M in range(top + 1):
-        for auto in (True, False):
-            out.append({"harness": "tools", "max_iterations": M, "auto_execute": auto, "tools": True,
-                        "provider_tools": True, "max_dev": None})
-        out.append({"harness": "tools", "max_iterations": M, "auto_execute": True, "tools": False,
-                    "provider_tools": True, "max_dev": None})
-        out.append({"harness": "tools", "max_iterations": M, "auto_execute": True, "tools": True,
-                    "provider_tools": False, "max_dev": None})
+    # estimated number of complete non-terminating answer sequences ("inner paths"): per attempt 6 continuing
+    # generator answers; per worker 3 continuing step answers per step and 4 continuing summaries; per tool round
+    # 19 continuing (round kind, tool outcomes) combinations.
+    for m in list(range(top + 1)) + [None]:
+        for chap in ("tracing", "stock", "blank"):
+            for var in HEAL_VARIANTS:
+                est = 6 ** ((3 if m is None else m) + 1)
+                out.append({"harness": "heal", "max_retries": m, "chaperone": chap, **var,
+                            "max_dev": _bound(tier, est, var.get("calls", 1)), "split": est >= 500})
+    for R in list(range(top + 1)) + [None]:
+        for S in list(range(top + 1)) + [None]:
+            if (R is None) != (S is None):
+                continue
+            for var in SWARM_VARIANTS:
+                est = (3 ** (10 if S is None else S) * 4) ** ((3 if R is None else R) + 1)
+                dev = _bound(tier, est, var.get("calls", 1))
+                if R is None:
+                    dev = 3 - var.get("calls", 1)  # documented defaults (3 regenerations x 10 steps): the never-succeeding path and its neighbours
+                out.append({"harness": "swarm", "max_regenerations": R, "max_steps": S, **var, "max_dev": dev, "split": est >= 500})
+    for M in list(range(top + 1)) + [None]:
+        for var in TOOLS_VARIANTS:
+            cfg = {"harness": "tools", "max_iterations": M, "auto_execute": True, "tools": True, "provider_tools": True}
+            cfg.update(var)
+            live = cfg["tools"] and cfg["provider_tools"]
+            rounds = DEFAULT_MAX_ITERATIONS if M is None else M
+            est = (19 if cfg["auto_execute"] else 1) ** rounds if live else 1
+            dev = _bound(tier, est, cfg.get("calls", 1))
+            if M is None and live:
+                cfg["rot"] = 1  # default answer = "the provider requests a tool" (the always-requesting adversary)
+                dev = 3 - cfg.get("calls", 1)
+            cfg["max_dev"] = dev
+            cfg["split"] = est >= 500
+            out.append(cfg)
     return out
 
 
@@ -456,7 +717,8 @@ def scenario(cfg):
     fn = RUNNERS[cfg["harness"]]
 
     def run(ch):
-        return fn(cfg, ch)
+        with contextlib.redirect_stdout(_Null()):  # silent=False variants print
+            return fn(cfg, ch)
 
     return run
 
@@ -469,9 +731,16 @@ def _last_dev(trace):
     return p
 
 
+def _violating(res):
+    if res and res[0] == "too-many-choices":
+        return True
+    return any(not key.startswith("obs:") for key, _what in res[1])
+
+
 def _explore(run, root, lo, hi, max_dev, horizon):
     """mc.choice.explore restricted to the subtree below `root` (a labelled answer prefix), branching only at
-    positions lo <= i < hi.  With root=(), lo=0, hi=None this is exactly choice.explore; it exists so that one big
+    positions lo <= i < hi.  With root=(), lo=0, hi=None this is choice.explore (except that violating executions are not
+    expanded, as in engine A); it exists so that one big
     answer tree can be split over processes (framework helper, see report)."""
     stack = [tuple(root)]
     while stack:
@@ -482,6 +751,8 @@ def _explore(run, root, lo, hi, max_dev, horizon):
         except choice.TooManyChoices as e:
             res = ("too-many-choices", str(e))
         yield ch, res
+        if _violating(res):
+            continue  # a violating execution is reported and not expanded (a runaway loop would inflate the tree)
         devs = 0
         lab = ch.labelled()
         for i, (nopt, _label, c) in enumerate(ch.trace):
@@ -539,14 +810,13 @@ def explore_task(task):
 def run(ctx):
     cfgs = configs(ctx.tier)
     tasks = []
-    for i, cfg in enumerate(cfgs):
-        for t in tasks_of(cfg):
+    for i, ts in enumerate(common.pmap(tasks_of, cfgs)):
+        for t in ts:
             tasks.append((i, t))
     order = common.rotate(list(range(len(tasks))), ctx.seed)
     results = dict(zip(order, common.pmap(explore_task, [tasks[j][1] for j in order])))
     states = trans = execs = 0
     per = {"heal": 0, "swarm": 0, "tools": 0}
-    bounded = []
     notes = {}
     for j, (i, _t) in enumerate(tasks):  # merge in canonical order: independent of seed and of process count
         r = results[j]
@@ -561,9 +831,12 @@ def run(ctx):
         for k, n in r["notes"].items():
             notes[k] = notes.get(k, 0) + n
     trans = states - len(cfgs)
-    for cfg in cfgs:
-        if cfg["max_dev"] is not None:
-            bounded.append({k: cfg[k] for k in cfg if k not in ("harness", "split")})
+    bounded = [cfg for cfg in cfgs if cfg["max_dev"] is not None]
+    bounded_by = {}
+    for cfg in bounded:
+        lim = {k: cfg[k] for k in ("max_retries", "max_regenerations", "max_steps", "max_iterations") if k in cfg}
+        key = f"{cfg['harness']} {lim} calls={cfg.get('calls', 1)} max_dev={cfg['max_dev']}"
+        bounded_by[key] = bounded_by.get(key, 0) + 1
     for k in sorted(notes):
         ctx.note(f"{k[4:]}: seen in {notes[k]} executions (not required by the statement; observation only)")
     for h, n in per.items():
@@ -571,6 +844,7 @@ def run(ctx):
     nontrivial = len([o for o in ctx.outcomes if not _trivial(o)])
     sample_cfg = cfgs[len(cfgs) // 2]
     ctx.sample({"cfg": sample_cfg})
+    top = 3 if ctx.tier == "quick" else 4
     ctx.coverage.update(
         states=states,
         transitions=trans,
@@ -578,35 +852,44 @@ def run(ctx):
         evaluations=execs,
         distinct_nontrivial=nontrivial,
         rule="engine B: every sequence of environment answers (generator output kind, factory/step/summariser "
-        "behaviour, provider round kind, tool and completion outcome) is executed on fresh real objects for every "
-        "budget setting; states = nodes of the answer trees, transitions = their edges; distinct = distinct "
-        "(result, exception, call counts, answer kinds) observations, non-trivial = those in which the loop ran "
-        "past its first environment call",
+        "behaviour, provider round kind, tool and completion outcome; each 'raises' in four exception flavours) is "
+        "executed on fresh real objects for every budget setting crossed with every option variant; states = nodes "
+        "of the answer trees, transitions = their edges; distinct = distinct (result, exception, call counts, answer "
+        "kinds) observations, non-trivial = those in which the loop ran past its first environment call",
         exhaustive=not bounded,
-        budgets=f"0..{3 if ctx.tier == 'quick' else 4} for max_retries, max_regenerations, max_steps_per_worker, max_iterations",
+        budgets=f"0..{top} and 'omitted' (documented default) for max_retries, max_regenerations x max_steps_per_worker, max_iterations",
+        answer_alphabets={"generator": len(GEN_KINDS), "factory": len(FACTORY_KINDS), "step": len(STEP_KINDS),
+                          "summariser": len(SUMMARY_KINDS), "provider_round": len(ROUND_KINDS), "tool": len(TOOL_KINDS),
+                          "completion": len(COMPLETE_KINDS)},
+        option_variants={"heal": len(HEAL_VARIANTS) * len(CHAPERONES), "swarm": len(SWARM_VARIANTS), "tools": len(TOOLS_VARIANTS)},
         configurations=len(cfgs),
-        deviation_bounded_configurations=bounded,
+        deviation_bounded_configurations=bounded_by,
         cut_rule=f"a loop asking for more than budget+{SLACK} answers is cut and reported",
     )
     if bounded:
         ctx.coverage["caps_hit"] = (
-            f"{len(bounded)} swarm configurations with more than 70000 inner paths are explored for all answer "
-            "sequences with at most max_dev non-default (non-'fresh junk'/'worker'/'hints') answers; all other "
-            "configurations completely")
+            f"{len(bounded)} of {len(cfgs)} configurations (estimated more than {EXHAUSTIVE_UP_TO[ctx.tier]} non-terminating "
+            "answer sequences, or limits omitted) are explored for all answer sequences with at most max_dev non-default "
+            "answers (default = 'valid' / 'fresh junk' / 'worker' / 'hints' / 'no tool calls' / 'returns'; with omitted "
+            "max_iterations the default round answer is 'one call'); all other configurations completely")
     ctx.assumptions += [
         "generator / worker / provider behaviours are drawn per call from the listed answer kinds; outputs never repeat "
-        "unless the 'repeat' answer is chosen",
+        "unless the 'repeat'/'same'/'' answers are chosen",
         "error feedback is checked with a Chaperone subclass that numbers its misfold errors (stock folding) because the "
-        "stock fold_enhanced error trace is a constant",
+        "stock fold_enhanced error trace is a constant; with the chaperone whose misfold error is empty, a retry without "
+        "error context is only noted",
         "completion markers are the five documented ones (SUCCESS, SOLVED, COMPLETE, DONE, FINISHED), case-insensitive",
+        "the exception flavour / falsy return value of the tool function is fixed per configuration (4 flavours), all "
+        "other exception flavours are per-call answers",
+        "with omitted limits the budget is the documented default read from the public attribute / signature",
     ]
 
 
 def _trivial(o):
     if o[0] == "heal":
-        return o[4] <= 1
+        return all(x[3] <= 1 for x in o[1:])
     if o[0] == "tools":
-        return o[4] + o[5] <= 1
+        return all(x[3] + x[4] <= 1 for x in o[1:])
     return all(x[3] <= 1 and sum(x[4]) <= 1 for x in o[1:])
 
 
